@@ -88,6 +88,7 @@ extern "C" void harness_buildpath() {
   bool reverse = nondet_bool(), open = nondet_bool();
   Path64 path; path.reserve(RN + 1);
   bool ok = BuildPath64(ops[0], reverse, open, path);
+  if (open) VA(ok);            // an open piece is never discarded by the closed-path degeneracy filter (tiny triangles)
   if (ok) {
     int m = (int)path.size(); VA(m >= 1 && m <= RN);
     for (int k = 0; k + 1 < RN; ++k) { if (k + 1 >= m) break; VA(path[k] != path[k + 1]); }
